@@ -533,6 +533,25 @@ pub fn gen_plan(rng: &mut Prng, property: &str, tier: &Tier) -> EnvPlan {
                 } else {
                     rng.below(1 << set_bits)
                 };
+                if rng.chance(1, 14) {
+                    // `related operands` for sets: build the exact complement of a set, then combine
+                    // the two (their union is the universe, their intersection empty)
+                    let mk = |op: Op| Step {
+                        sym_fault: None,
+                        foreign: 0,
+                        client,
+                        keep: true,
+                        op,
+                    };
+                    let new_set = steps.len(); // id of the set the next step creates
+                    steps.push(mk(Op::SetNew));
+                    steps.push(mk(Op::SetUniverse(new_set)));
+                    steps.push(mk(Op::SetBin(SetBinKind::Complement, new_set, a)));
+                    let k = *rng.pick(&[SetBinKind::Union, SetBinKind::Intersect, SetBinKind::Complement]);
+                    steps.push(mk(Op::SetBin(k, a, new_set)));
+                    steps.push(mk(Op::SetContains(a, e)));
+                    continue;
+                }
                 match rng.weighted(&[2, 2, 1, 1, 6, 3, 3, 3, 1, 1, 6, 1]) {
                     0 => Op::SetNew,
                     1 => Op::SetFromElement(e),
@@ -550,7 +569,22 @@ pub fn gen_plan(rng: &mut Prng, property: &str, tier: &Tier) -> EnvPlan {
             }
             2 => match rng.weighted(&[5, 2, 1, if faults.cancel { 1 } else { 0 }]) {
                 0 if !gen_cfg.pool.is_empty() => {
-                    let f = fast::gen_formula(rng, &gen_cfg);
+                    let mut f = fast::gen_formula(rng, &gen_cfg);
+                    // `related operands` for formula clients: a formula that contains an earlier
+                    // formula of the run as a sub-term (so their diagrams share structure)
+                    if rng.chance(1, 5) {
+                        if let Some(prev) = steps.iter().rev().find_map(|st| match &st.op {
+                            Op::Formula(g, _, _) | Op::FormulaOwnOrder(g, _, _) => Some(g.clone()),
+                            _ => None,
+                        }) {
+                            let wrap = *rng.pick(&[fast::BinOp::And, fast::BinOp::Or, fast::BinOp::Xor, fast::BinOp::Implies]);
+                            f = match rng.below(3) {
+                                0 => F::Bin(wrap, Box::new(f), Box::new(prev)),
+                                1 => F::Bin(wrap, Box::new(prev), Box::new(f)),
+                                _ => F::Not(Box::new(prev)),
+                            };
+                        }
+                    }
                     if ids_dense && rng.chance(1, 4) {
                         Op::FormulaOwnOrder(f, rng.next_u64(), rng.below(3) as u8)
                     } else {
@@ -637,7 +671,55 @@ pub fn gen_plan(rng: &mut Prng, property: &str, tier: &Tier) -> EnvPlan {
         } else {
             None
         };
-        steps.push(Step { sym_fault, foreign, client, keep, op });
+        // `related operands`: now and then the next steps use structurally related diagrams on purpose
+        // (x with its own negation, x with a cofactor / quantification of x, the same operation
+        // with swapped operands), which random operand selection rarely assembles
+        let related = if op.is_raw() && !sets_only && rng.chance(1, 10) { Some(rng.below(5)) } else { None };
+        steps.push(Step { sym_fault, foreign, client, keep, op: op.clone() });
+        if let Some(kind) = related {
+            let this_id = steps.len() - 1 + 2; // the handle id the step above created (if it kept one)
+            let bin = *rng.pick(&[BinKind::And, BinKind::Or, BinKind::Xor, BinKind::Eq, BinKind::Implies, BinKind::Nand, BinKind::Nor]);
+            let mk = |op: Op| Step {
+                sym_fault: None,
+                foreign: 0,
+                client,
+                keep: true,
+                op,
+            };
+            match kind {
+                0 => {
+                    // x op (not x)
+                    steps.push(mk(Op::Un(UnKind::Not, this_id)));
+                    steps.push(mk(Op::Bin(bin, this_id, this_id + 1)));
+                }
+                1 => {
+                    // x op (exists v # x) and x op (all v # x)
+                    let v = rng.below(nvars);
+                    steps.push(mk(Op::Exists(vec![v], this_id)));
+                    steps.push(mk(Op::Bin(bin, this_id, this_id + 1)));
+                    steps.push(mk(Op::All(vec![v], this_id)));
+                    steps.push(mk(Op::Bin(bin, this_id + 3, this_id)));
+                }
+                2 => {
+                    // the same binary operation with swapped operands, then both results combined
+                    if let Op::Bin(k, a, b) = &op {
+                        steps.push(mk(Op::Bin(*k, *b, *a)));
+                        steps.push(mk(Op::Bin(BinKind::Eq, this_id, this_id + 1)));
+                    }
+                }
+                3 => {
+                    // ite(x, x, not x), ite(not x, x, x)
+                    steps.push(mk(Op::Un(UnKind::Not, this_id)));
+                    steps.push(mk(Op::Ite(this_id, this_id, this_id + 1)));
+                    steps.push(mk(Op::Ite(this_id + 1, this_id, this_id)));
+                }
+                _ => {
+                    // counting over x, not x, x
+                    steps.push(mk(Op::Un(UnKind::Not, this_id)));
+                    steps.push(mk(Op::CountN(*rng.pick(&[CountKind::Aln, CountKind::Amn, CountKind::Exn]), vec![this_id, this_id + 1, this_id], rng.range_i64(0, 3))));
+                }
+            }
+        }
         if let Some(again) = retry {
             steps.push(Step {
                 sym_fault: None,
